@@ -23,21 +23,21 @@ type Violation struct {
 
 // Fragment is the per-process output.
 type Fragment struct {
-	Property    string           `json:"property"`
-	Test        string           `json:"test"`
-	Shard       int              `json:"shard"`
-	Evaluations int              `json:"evaluations"`
-	Nontrivial  []string         `json:"nontrivial"` // distinct signature hashes of non-trivial cases
+	Property    string   `json:"property"`
+	Test        string   `json:"test"`
+	Shard       int      `json:"shard"`
+	Evaluations int      `json:"evaluations"`
+	Nontrivial  []string `json:"nontrivial"` // distinct signature hashes of non-trivial cases
 	// NontrivialEnum counts non-trivial cases of complete enumerations, which are distinct by construction
 	// (each value of the enumerated domain is visited once; shards partition the domain).
-	NontrivialEnum int64 `json:"nontrivial_enum"`
-	Classes     map[string]int64 `json:"classes"`
-	Samples     []any            `json:"samples"`
-	Violations  []Violation      `json:"violations"`
-	Excluded    map[string]int64 `json:"excluded"` // cases steered away from known findings
-	Known       []string         `json:"known"`    // KNOWN-FINDING lines to print
-	Exhaustive  bool             `json:"exhaustive"`
-	Notes       []string         `json:"notes"`
+	NontrivialEnum int64            `json:"nontrivial_enum"`
+	Classes        map[string]int64 `json:"classes"`
+	Samples        []any            `json:"samples"`
+	Violations     []Violation      `json:"violations"`
+	Excluded       map[string]int64 `json:"excluded"` // cases steered away from known findings
+	Known          []string         `json:"known"`    // KNOWN-FINDING lines to print
+	Exhaustive     bool             `json:"exhaustive"`
+	Notes          []string         `json:"notes"`
 }
 
 var (
